@@ -663,40 +663,40 @@ theorem assign_rows_eq (lsa : Mat α → List (Nat × Nat)) (M N : Nat) (D : Mat
 end
 
 section
-variable [Add α] [Sub α] [Mul α] [Neg α] [Zero α]
+variable [Add α] [Sub α] [Mul α] [Div α] [Zero α] [OfNat α 2]
 
 /-- the model `wasserstein` is: the model's matrix, then the translated statements behind it (`IndexError` for `none`) -/
-theorem wasserstein_eq (sqrt : α → α) (cp sp : α) (lsa : Mat α → List (Nat × Nat)) (d1 d2 : Dgm α) :
-    wasserstein sqrt cp sp lsa d1 d2 =
-      match (Ref.assign lsa (matrixOf sqrt cp sp d1 d2)).bind (fun r =>
-          (Ref.ws_rows (prepared d1).length (prepared d2).length (matrixOf sqrt cp sp d1 d2) r.1 r.2.1).map
+theorem wasserstein_eq (sqrt : α → α) (lsa : Mat α → List (Nat × Nat)) (d1 d2 : Dgm α) :
+    wasserstein sqrt lsa d1 d2 =
+      match (Ref.assign lsa (matrixOf sqrt d1 d2)).bind (fun r =>
+          (Ref.ws_rows (prepared d1).length (prepared d2).length (matrixOf sqrt d1 d2) r.1 r.2.1).map
             fun rows => (r.2.2, rows)) with
       | none => .error .index
       | some (v, rows) => .ok { value := v, warn1 := warned d1, warn2 := warned d2, rows := rows } := by
   rw [assign_rows_eq]
   unfold wasserstein matrixOf
   simp only []
-  cases (lsa (augMatrix sqrt cp sp (prepared d1) (prepared d2))).mapM
-    fun p => lookup (augMatrix sqrt cp sp (prepared d1) (prepared d2)) p.1 p.2 <;> rfl
+  cases (lsa (augMatrix sqrt (prepared d1) (prepared d2))).mapM
+    fun p => lookup (augMatrix sqrt (prepared d1) (prepared d2)) p.1 p.2 <;> rfl
 
 /-- **the whole routine as the chain of its translated parts**: preamble (translated), matrix (the model's `augMatrix`, whose
     entries are the translated `aug_entry`), solver call and sum (translated), extraction (translated) -/
-theorem wasserstein_chain_eq (sqrt : α → α) (cp sp : α) (lsa : Mat α → List (Nat × Nat)) (c1 c2 : Nat) (h1 : 0 < c1) (h2 : 0 < c2)
+theorem wasserstein_chain_eq (sqrt : α → α) (lsa : Mat α → List (Nat × Nat)) (c1 c2 : Nat) (h1 : 0 < c1) (h2 : 0 < c2)
     (d1 d2 : Dgm α) :
-    wasserstein sqrt cp sp lsa d1 d2 =
+    wasserstein sqrt lsa d1 d2 =
       match (Ref.ws_preamble c1 c2 d1 d2).bind (fun p =>
-          (Ref.assign lsa (augMatrix sqrt cp sp (unlift p.1) (unlift p.2.2.1))).bind fun r =>
-            (Ref.ws_rows p.2.1 p.2.2.2.1 (augMatrix sqrt cp sp (unlift p.1) (unlift p.2.2.1)) r.1 r.2.1).map
+          (Ref.assign lsa (augMatrix sqrt (unlift p.1) (unlift p.2.2.1))).bind fun r =>
+            (Ref.ws_rows p.2.1 p.2.2.2.1 (augMatrix sqrt (unlift p.1) (unlift p.2.2.1)) r.1 r.2.1).map
               fun rows => (r.2.2, rows, p.2.2.2.2.1, p.2.2.2.2.2)) with
       | none => .error .index
       | some (v, rows, w1, w2) => .ok { value := v, warn1 := w1, warn2 := w2, rows := rows } := by
   rw [ws_preamble_eq c1 c2 h1 h2, wasserstein_eq]
   simp only [Option.bind_some, unlift_lift, matrixOf]
-  cases (Ref.assign lsa (augMatrix sqrt cp sp (prepared d1) (prepared d2))) with
+  cases (Ref.assign lsa (augMatrix sqrt (prepared d1) (prepared d2))) with
   | none => rfl
   | some r =>
     simp only [Option.bind_some]
-    cases Ref.ws_rows (prepared d1).length (prepared d2).length (augMatrix sqrt cp sp (prepared d1) (prepared d2)) r.1 r.2.1 <;> rfl
+    cases Ref.ws_rows (prepared d1).length (prepared d2).length (augMatrix sqrt (prepared d1) (prepared d2)) r.1 r.2.1 <;> rfl
 
 end
 end Wasserstein
